@@ -229,6 +229,12 @@ Section Chain.
   Definition packed_of (st : dstate) : bytes :=
     firstn (Z.to_nat (input_size st)) (fp_rest st).
 
+  (* what one call of decompress does to the chain: nothing, or one _decompress *)
+  Definition chain_step (st st' : dstate) (data tmp : bytes) : Prop :=
+    (stages st' = stages st /\ unpacked st' = unpacked st /\ data = [] /\ tmp = [])
+    \/ exists ml, chain_run (stages st) (unpacked st) (unpacksizes st) data ml
+                  = Ok (stages st', unpacked st', tmp).
+
   (* hang condition of the caller loop (theorem worker_spins) *)
   Definition stuck (quiet : stage_st -> Prop) (st : dstate) : Prop :=
     Forall quiet (stages st) /\
@@ -268,6 +274,7 @@ Arguments safe_state {stage_st}.
 Arguments fresh {stage_st}.
 Arguments packed_of {stage_st}.
 Arguments stuck {stage_st}.
+Arguments chain_step {stage_st}.
 
 (* ---- toy stages for differential testing ---------------------------- *)
 (* state = (tag, k, pending).
@@ -280,6 +287,7 @@ Arguments stuck {stage_st}.
    tag 2 : expander        -- every input byte twice, ignores max_length
    other : as tag 0 *)
 Definition toy_state : Type := (Z * Z * bytes)%type.
+Definition toy_st (tag k : Z) (pend : bytes) : toy_state := (tag, k, pend).
 
 Fixpoint dup (l : bytes) : bytes :=
   match l with [] => [] | x :: t => x :: x :: dup t end.
@@ -332,3 +340,822 @@ Definition toy_worker_t (t : tree) : tree :=
                     (of_TI (tnth t 3)) (of_TI (tnth t 4)) (of_bytes (tnth t 5))
                     (of_TI (tnth t 6)) (of_TI (tnth t 7))
                     (map (fun x => Z.to_nat (of_TI x)) (of_TL (tnth t 8)))).
+
+(* ===================================================================== *)
+(*                              PART 2 : PROOFS                          *)
+(* ===================================================================== *)
+
+(* ---- lists, lengths, slices ----------------------------------------- *)
+Lemma zlen_nil : zlen [] = 0.
+Proof. reflexivity. Qed.
+
+Lemma zlen_app (a b : bytes) : zlen (a ++ b) = zlen a + zlen b.
+Proof. unfold zlen. rewrite app_length. lia. Qed.
+
+Lemma zlen_nonneg (a : bytes) : 0 <= zlen a.
+Proof. unfold zlen. lia. Qed.
+
+Lemma zlen_le0_nil (a : bytes) : zlen a <= 0 -> a = [].
+Proof. destruct a as [|x a]; [reflexivity|]. unfold zlen; simpl length. lia. Qed.
+
+Lemma skipn_add (a b : nat) (l : bytes) : skipn b (skipn a l) = skipn (a + b) l.
+Proof.
+  revert l. induction a as [|a IHa]; intros l; [reflexivity|].
+  destruct l as [|x l]; [now rewrite !skipn_nil|]. simpl. apply IHa.
+Qed.
+
+Lemma py_norm_id (n i : Z) : 0 <= i <= n -> py_norm n i = i.
+Proof.
+  unfold py_norm. intros Hi. destruct (i <? 0) eqn:E.
+  - apply Z.ltb_lt in E. lia.
+  - lia.
+Qed.
+
+Lemma py_slice_eq (l : bytes) (a b : Z) :
+  0 <= a <= b -> b <= zlen l ->
+  py_slice l a b = firstn (Z.to_nat (b - a)) (skipn (Z.to_nat a) l).
+Proof. intros Ha Hb. unfold py_slice. rewrite !py_norm_id by lia. reflexivity. Qed.
+
+Lemma py_from_eq (l : bytes) (a : Z) :
+  0 <= a <= zlen l -> py_from l a = skipn (Z.to_nat a) l.
+Proof.
+  intros Ha. unfold py_from. rewrite py_slice_eq by lia.
+  apply firstn_all2. rewrite skipn_length. unfold zlen in *. lia.
+Qed.
+
+Lemma py_to_eq (l : bytes) (b : Z) :
+  0 <= b <= zlen l -> py_to l b = firstn (Z.to_nat b) l.
+Proof.
+  intros Hb. unfold py_to. rewrite py_slice_eq by lia.
+  rewrite Z.sub_0_r. reflexivity.
+Qed.
+
+Lemma zlen_py_slice (l : bytes) (a b : Z) :
+  0 <= a <= b -> b <= zlen l -> zlen (py_slice l a b) = b - a.
+Proof.
+  intros Ha Hb. rewrite py_slice_eq by lia. unfold zlen in *.
+  rewrite firstn_length, skipn_length. lia.
+Qed.
+
+Lemma zlen_py_from (l : bytes) (a : Z) :
+  0 <= a <= zlen l -> zlen (py_from l a) = zlen l - a.
+Proof. intros Ha. unfold py_from. rewrite zlen_py_slice by lia. reflexivity. Qed.
+
+Lemma zlen_py_to (l : bytes) (b : Z) :
+  0 <= b <= zlen l -> zlen (py_to l b) = b.
+Proof. intros Hb. unfold py_to. rewrite zlen_py_slice by lia. lia. Qed.
+
+Lemma py_from_split (l : bytes) (a b : Z) :
+  0 <= a <= b -> b <= zlen l -> py_from l a = py_slice l a b ++ py_from l b.
+Proof.
+  intros Ha Hb. rewrite !py_from_eq, py_slice_eq by lia.
+  replace (Z.to_nat b) with (Z.to_nat a + Z.to_nat (b - a))%nat by lia.
+  rewrite <- skipn_add. symmetry. apply firstn_skipn.
+Qed.
+
+Lemma py_to_from (l : bytes) (b : Z) :
+  0 <= b <= zlen l -> py_to l b ++ py_from l b = l.
+Proof. intros Hb. rewrite py_to_eq, py_from_eq by lia. apply firstn_skipn. Qed.
+
+Lemma py_from_all (l : bytes) : py_from l (zlen l) = [].
+Proof.
+  rewrite py_from_eq by (pose proof (zlen_nonneg l); lia).
+  unfold zlen. rewrite Nat2Z.id. apply skipn_all.
+Qed.
+
+Lemma py_from_0 (l : bytes) : py_from l 0 = l.
+Proof. rewrite py_from_eq by (pose proof (zlen_nonneg l); lia). reflexivity. Qed.
+
+(* ---- prefix ---------------------------------------------------------- *)
+Lemma prefix_refl (a : bytes) : prefix a a.
+Proof. exists []. now rewrite app_nil_r. Qed.
+
+Lemma prefix_trans (a b c : bytes) : prefix a b -> prefix b c -> prefix a c.
+Proof. intros [x ->] [y ->]. exists (x ++ y). now rewrite app_assoc. Qed.
+
+Lemma prefix_app (a b : bytes) : prefix a (a ++ b).
+Proof. now exists b. Qed.
+
+Lemma prefix_len (a b : bytes) : prefix a b -> zlen a <= zlen b.
+Proof. intros [c ->]. rewrite zlen_app. pose proof (zlen_nonneg c). lia. Qed.
+
+Lemma prefix_firstn (a b : bytes) : prefix a b -> a = firstn (length a) b.
+Proof.
+  intros [c ->]. rewrite firstn_app, Nat.sub_diag, firstn_all. simpl.
+  now rewrite app_nil_r.
+Qed.
+
+Section ChainProofs.
+
+  Variable stage_st : Type.
+  Variable dstep : stage_st -> bytes -> Z -> stage_st * bytes.
+
+  Local Notation dst := (dstate stage_st).
+
+  (* ---- _read_data --------------------------------------------------- *)
+  Lemma read_data_spec (st st1 : dst) (rd : nat) (data : bytes) :
+    read_data st rd = (st1, data) ->
+    stages st1 = stages st /\ unpacked st1 = unpacked st /\
+    unpacksizes st1 = unpacksizes st /\ input_size st1 = input_size st /\
+    block_size st1 = block_size st /\ unused st1 = unused st /\
+    buf st1 = buf st /\ pos st1 = pos st /\
+    fp_rest st = data ++ fp_rest st1 /\
+    consumed st1 = consumed st + zlen data /\
+    zlen data <= Z.max 0 (Z.min (input_size st - consumed st - zlen (unused st))
+                                (block_size st - zlen (unused st))).
+  Proof.
+    unfold read_data. intros H.
+    destruct (Z.min (input_size st - consumed st - zlen (unused st))
+                    (block_size st - zlen (unused st)) >? 0) eqn:E.
+    - unfold fp_read in H. injection H as <- <-. simpl.
+      repeat split; try reflexivity.
+      + symmetry. apply firstn_skipn.
+      + apply Z.gtb_lt in E. unfold zlen at 1. rewrite firstn_length. lia.
+    - injection H as <- <-. rewrite zlen_nil, app_nil_l.
+      repeat split; try reflexivity; lia.
+  Qed.
+
+  (* ---- _decompress on a state ---------------------------------------- *)
+  Lemma run_chain_spec (st st2 : dst) (data out : bytes) (ml : Z) :
+    run_chain dstep st data ml = Ok (st2, out) ->
+    chain_run dstep (stages st) (unpacked st) (unpacksizes st) data ml
+      = Ok (stages st2, unpacked st2, out) /\
+    unpacksizes st2 = unpacksizes st /\ consumed st2 = consumed st /\
+    input_size st2 = input_size st /\ block_size st2 = block_size st /\
+    unused st2 = unused st /\ buf st2 = buf st /\ pos st2 = pos st /\
+    fp_rest st2 = fp_rest st.
+  Proof.
+    unfold run_chain. intros H.
+    destruct (chain_run dstep (stages st) (unpacked st) (unpacksizes st) data ml)
+      as [[[ss up] o]|e]; simpl in H; [|discriminate].
+    injection H as <- <-. simpl. repeat split; reflexivity.
+  Qed.
+
+  Lemma chain_run_length (ss : list stage_st) :
+    forall up us data ml ss' up' out,
+      chain_run dstep ss up us data ml = Ok (ss', up', out) ->
+      length ss' = length ss /\ length up' = length up.
+  Proof.
+    induction ss as [|s ss IH]; intros up us data ml ss' up' out H; simpl in H.
+    - injection H as <- <- _. split; reflexivity.
+    - destruct up as [|u up]; [discriminate|]. destruct us as [|z us]; [discriminate|].
+      destruct (u <? z).
+      + destruct (dstep s data ml) as [s1 o].
+        destruct (chain_run dstep ss up us o ml) as [[[ss2 up2] d]|e] eqn:E;
+          simpl in H; [|discriminate].
+        injection H as <- <- _. apply IH in E. simpl. lia.
+      + destruct (zlen data =? 0); [|discriminate].
+        destruct (chain_run dstep ss up us [] ml) as [[[ss2 up2] d]|e] eqn:E;
+          simpl in H; [|discriminate].
+        injection H as <- <- _. apply IH in E. simpl. lia.
+  Qed.
+
+  (* ---- decompress: one characterisation used by all theorems ---------
+     data = bytes read from fp by this call, tmp = what _decompress returned.
+     The key line is the flow equation
+        _buf[_pos:] ++ tmp  =  out ++ _buf'[_pos':]
+     (nothing is lost or invented by the carry-over buffer).
+     In the last branch the slice index j = max_length - current_buf_len
+     satisfies 0 < j < len(tmp) (by the two failed tests), so tmp[:j] and
+     tmp[j:] are plain firstn/skipn and never hit Python's negative-index
+     rule; this is what [py_to_from ... by lia] checks below. *)
+  Lemma decompress_spec (st st' : dst) (ml : Z) (rd : nat) (out : bytes) :
+    0 <= pos st <= zlen (buf st) -> unused st = [] ->
+    decompress dstep st ml rd = Ok (st', out) ->
+    exists data tmp,
+      chain_step dstep st st' data tmp /\
+      fp_rest st = data ++ fp_rest st' /\
+      consumed st' = consumed st + zlen data /\
+      zlen data <= Z.max 0 (input_size st - consumed st) /\
+      unpacksizes st' = unpacksizes st /\ input_size st' = input_size st /\
+      block_size st' = block_size st /\ unused st' = [] /\
+      0 <= pos st' <= zlen (buf st') /\
+      py_from (buf st) (pos st) ++ tmp = out ++ py_from (buf st') (pos st') /\
+      (0 <= ml -> zlen out <= ml).
+  Proof.
+    intros Hpos Hun H. unfold decompress in H.
+    destruct (ml <? 0) eqn:Eneg.
+    - (* max_length < 0 *)
+      apply Z.ltb_lt in Eneg.
+      destruct (read_data st rd) as [st1 data] eqn:Hrd.
+      apply read_data_spec in Hrd.
+      destruct Hrd as (R1 & R2 & R3 & R4 & R5 & R6 & R7 & R8 & R9 & R10 & R11).
+      destruct (run_chain dstep st1 (unused st1 ++ data) ml) as [[st2 tmp]|e] eqn:Hrc;
+        simpl in H; [|discriminate].
+      apply run_chain_spec in Hrc.
+      destruct Hrc as (C1 & C2 & C3 & C4 & C5 & C6 & C7 & C8 & C9).
+      injection H as <- <-. simpl.
+      rewrite R6, Hun, app_nil_l in C1. rewrite R1, R2, R3 in C1.
+      exists data, tmp. rewrite Hun, zlen_nil in R11.
+      split; [right; exists ml; exact C1|].
+      rewrite C9, C3, R10, C2, R3, C4, R4, C5, R5, R7, R8.
+      repeat split; try reflexivity; try lia; try assumption.
+      + rewrite py_from_0, app_nil_r. reflexivity.
+    - apply Z.ltb_ge in Eneg.
+      destruct (zlen (buf st) - pos st >=? ml) eqn:Ehave.
+      + (* enough data already in _buf *)
+        assert (Hge : ml <= zlen (buf st) - pos st) by (apply Z.geb_le in Ehave; lia).
+        injection H as <- <-. simpl.
+        exists [], []. rewrite zlen_nil, app_nil_l, app_nil_r.
+        split; [left; repeat split; reflexivity|].
+        repeat split; try reflexivity; try lia; try assumption.
+        * apply py_from_split; lia.
+        * intros _. rewrite zlen_py_slice by lia. lia.
+      + assert (Hlt : zlen (buf st) - pos st < ml).
+        { destruct (Z.geb_spec (zlen (buf st) - pos st) ml); [discriminate|lia]. }
+        destruct (read_data st rd) as [st1 data] eqn:Hrd.
+        apply read_data_spec in Hrd.
+        destruct Hrd as (R1 & R2 & R3 & R4 & R5 & R6 & R7 & R8 & R9 & R10 & R11).
+        rewrite R6, Hun in H. change (zlen [] >? 0) with false in H. cbv iota in H.
+        destruct (run_chain dstep st1 data ml) as [[st2 tmp]|e] eqn:Hrc;
+          simpl in H; [|discriminate].
+        apply run_chain_spec in Hrc.
+        destruct Hrc as (C1 & C2 & C3 & C4 & C5 & C6 & C7 & C8 & C9).
+        rewrite R1, R2, R3 in C1. rewrite Hun, zlen_nil in R11.
+        assert (Hchain : chain_step dstep st st2 data tmp) by (right; exists ml; exact C1).
+        assert (Hpf : zlen (py_from (buf st) (pos st)) = zlen (buf st) - pos st)
+          by (apply zlen_py_from; lia).
+        destruct (zlen (buf st) - pos st + zlen tmp <=? ml) eqn:Efit.
+        * apply Z.leb_le in Efit. injection H as <- <-. simpl.
+          exists data, tmp.
+          rewrite C9, C3, R10, C2, R3, C4, R4, C5, R5, C6, R6, C7, R7, C8, R8.
+          split; [exact Hchain|].
+          repeat split; try reflexivity; try lia; try assumption.
+          -- rewrite py_from_0, app_nil_r. reflexivity.
+          -- intros _. rewrite zlen_app, Hpf. lia.
+        * apply Z.leb_gt in Efit. injection H as <- <-. simpl.
+          exists data, tmp.
+          rewrite C9, C3, R10, C2, R3, C4, R4, C5, R5, C6, R6, C7, R7, C8, R8.
+          split; [exact Hchain|].
+          pose proof (zlen_nonneg (py_from tmp (ml - (zlen (buf st) - pos st)))) as Hnn.
+          repeat split; try reflexivity; try lia; try assumption.
+          -- rewrite py_from_0, <- app_assoc, py_to_from by lia. reflexivity.
+          -- intros _. rewrite zlen_app, Hpf, zlen_py_to by lia. lia.
+  Qed.
+
+  (* ==== A. bookkeeping invariants ===================================== *)
+  Theorem decompress_book_inv (L0 : Z) (st st' : dst) (ml : Z) (rd : nat) (out : bytes) :
+    book_inv L0 st ->
+    decompress dstep st ml rd = Ok (st', out) ->
+    book_inv L0 st' /\
+    consumed st <= consumed st' /\
+    (consumed st <= input_size st -> consumed st' <= input_size st') /\
+    unpacksizes st' = unpacksizes st /\ input_size st' = input_size st /\
+    block_size st' = block_size st /\
+    length (stages st') = length (stages st) /\
+    length (unpacked st') = length (unpacked st).
+  Proof.
+    intros (Hpos & Hun & Hc) H.
+    destruct (decompress_spec st st' ml rd out Hpos Hun H)
+      as (data & tmp & Hch & Hfp & Hcons & Hdl & Hus & His & Hbs & Hun' & Hpos' & _ & _).
+    pose proof (zlen_nonneg data) as Hd0.
+    split; [|split; [|split; [|split; [|split; [|split]]]]]; try assumption; try lia.
+    - split; [exact Hpos'|]. split; [exact Hun'|].
+      rewrite Hfp, zlen_app in Hc. lia.
+    - destruct Hch as [(-> & -> & _ & _)|[ml' Hcr]]; [split; reflexivity|].
+      apply chain_run_length in Hcr. exact Hcr.
+  Qed.
+
+  Theorem decompress_seq_book_inv (L0 : Z) (calls : list (Z * nat)) :
+    forall (st st' : dst) (outs : bytes),
+      book_inv L0 st -> consumed st <= input_size st ->
+      decompress_seq dstep st calls = Ok (st', outs) ->
+      book_inv L0 st' /\ consumed st' <= input_size st' /\
+      input_size st' = input_size st.
+  Proof.
+    induction calls as [|[ml rd] calls IH]; intros st st' outs Hinv Hle H; simpl in H.
+    - injection H as <- <-. repeat split; try apply Hinv; lia.
+    - destruct (decompress dstep st ml rd) as [[st1 o]|e] eqn:Hd; simpl in H; [|discriminate].
+      destruct (decompress_seq dstep st1 calls) as [[st2 os]|e] eqn:Hs; simpl in H; [|discriminate].
+      injection H as <- <-.
+      destruct (decompress_book_inv L0 st st1 ml rd o Hinv Hd)
+        as (Hinv1 & _ & Hle1 & _ & His & _).
+      destruct (IH st1 st2 os Hinv1 (Hle1 Hle) Hs) as (Hinv2 & Hle2 & His2).
+      repeat split; try apply Hinv2; lia.
+  Qed.
+
+  Lemma init_book_inv (ss : list stage_st) (us : list Z) (isz bsz : Z) (fp : bytes) :
+    book_inv (zlen fp) (init_state ss us isz bsz fp).
+  Proof. unfold book_inv, init_state; simpl. rewrite zlen_nil. repeat split; lia. Qed.
+
+  (* ==== B. max_length is honoured ===================================== *)
+  Theorem decompress_len (st st' : dst) (ml : Z) (rd : nat) (out : bytes) :
+    0 <= pos st <= zlen (buf st) -> unused st = [] ->
+    0 <= ml ->
+    decompress dstep st ml rd = Ok (st', out) ->
+    zlen out <= ml.
+  Proof.
+    intros Hpos Hun Hml H.
+    destruct (decompress_spec st st' ml rd out Hpos Hun H)
+      as (data & tmp & _ & _ & _ & _ & _ & _ & _ & _ & _ & _ & Hlen).
+    exact (Hlen Hml).
+  Qed.
+
+  (* ==== C. prefix safety ============================================== *)
+  Lemma creach_init (ss : list stage_st) : creach dstep ss ss [] [].
+  Proof.
+    induction ss as [|s ss IH]; [apply creach_nil|].
+    eapply creach_cons; [apply reach_init|exact IH].
+  Qed.
+
+  (* _decompress extends a chain run; the gate can only skip a stage on empty data *)
+  Lemma chain_run_creach (s0s ss : list stage_st) (x z : bytes) :
+    creach dstep s0s ss x z ->
+    forall up us data ml ss' up' out,
+      chain_run dstep ss up us data ml = Ok (ss', up', out) ->
+      creach dstep s0s ss' (x ++ data) (z ++ out).
+  Proof.
+    induction 1 as [x|s0 s x y s0s ss z Hr Hc IH];
+      intros up us data ml ss' up' out H; simpl in H.
+    - injection H as <- _ <-. apply creach_nil.
+    - destruct up as [|u up]; [discriminate|]. destruct us as [|w us]; [discriminate|].
+      destruct (u <? w).
+      + pose proof (reach_step stage_st dstep s0 s x y data ml Hr) as Hr'.
+        destruct (dstep s data ml) as [s1 o]. simpl in Hr'.
+        destruct (chain_run dstep ss up us o ml) as [[[ss2 up2] d]|e] eqn:E;
+          simpl in H; [|discriminate].
+        injection H as <- _ <-.
+        eapply creach_cons; [exact Hr'|]. eapply IH; exact E.
+      + destruct (zlen data =? 0) eqn:Ez; [|discriminate].
+        apply Z.eqb_eq in Ez. assert (data = []) as -> by (apply zlen_le0_nil; lia).
+        destruct (chain_run dstep ss up us [] ml) as [[[ss2 up2] d]|e] eqn:E;
+          simpl in H; [|discriminate].
+        injection H as <- _ <-.
+        rewrite app_nil_r.
+        eapply creach_cons; [exact Hr|].
+        rewrite <- (app_nil_r y). eapply IH; exact E.
+  Qed.
+
+  Lemma fresh_safe (st : dst) :
+    fresh st -> safe_state dstep (stages st) (fp_rest st) st [].
+  Proof.
+    intros (Hc & Hu & Hb & Hp). unfold safe_state. rewrite Hb, Hp, Hu, Hc.
+    split; [rewrite zlen_nil; lia|]. split; [reflexivity|].
+    exists [], []. rewrite zlen_nil.
+    split; [apply creach_init|]. repeat split; try reflexivity; lia.
+  Qed.
+
+  (* one decompress call preserves the invariant (no contract needed) *)
+  Lemma decompress_safe (s0s : list stage_st) (P0 : bytes) (st st' : dst) (acc : bytes)
+        (ml : Z) (rd : nat) (out : bytes) :
+    safe_state dstep s0s P0 st acc ->
+    decompress dstep st ml rd = Ok (st', out) ->
+    safe_state dstep s0s P0 st' (acc ++ out).
+  Proof.
+    intros (Hpos & Hun & x & z & Hcr & HP & Hcons & Hxl & Hz) H.
+    destruct (decompress_spec st st' ml rd out Hpos Hun H)
+      as (data & tmp & Hch & Hfp & Hcons' & Hdl & Hus & His & Hbs & Hun' & Hpos' & Hflow & _).
+    split; [exact Hpos'|]. split; [exact Hun'|].
+    exists (x ++ data), (z ++ tmp).
+    split; [|split; [|split; [|split]]].
+    - destruct Hch as [(Hs & _ & -> & ->)|[ml' Hrun]].
+      + rewrite !app_nil_r, Hs. exact Hcr.
+      + eapply chain_run_creach; [exact Hcr|exact Hrun].
+    - rewrite HP, Hfp, app_assoc. reflexivity.
+    - rewrite Hcons', Hcons, zlen_app. reflexivity.
+    - rewrite zlen_app, His. pose proof (zlen_nonneg x). lia.
+    - rewrite Hz, <- !app_assoc, Hflow. reflexivity.
+  Qed.
+
+  Lemma decompress_input_size (s0s : list stage_st) (P0 : bytes) (st st' : dst) (acc : bytes)
+        (ml : Z) (rd : nat) (out : bytes) :
+    safe_state dstep s0s P0 st acc ->
+    decompress dstep st ml rd = Ok (st', out) ->
+    input_size st' = input_size st.
+  Proof.
+    intros (Hpos & Hun & _) H.
+    destruct (decompress_spec st st' ml rd out Hpos Hun H)
+      as (data & tmp & _ & _ & _ & _ & _ & His & _). exact His.
+  Qed.
+
+  Lemma decompress_seq_safe (s0s : list stage_st) (P0 : bytes) (calls : list (Z * nat)) :
+    forall (st st' : dst) (acc outs : bytes),
+      safe_state dstep s0s P0 st acc ->
+      decompress_seq dstep st calls = Ok (st', outs) ->
+      safe_state dstep s0s P0 st' (acc ++ outs) /\ input_size st' = input_size st.
+  Proof.
+    induction calls as [|[ml rd] calls IH]; intros st st' acc outs Hs H; simpl in H.
+    - injection H as <- <-. rewrite app_nil_r. split; [exact Hs|reflexivity].
+    - destruct (decompress dstep st ml rd) as [[st1 o]|e] eqn:Hd; simpl in H; [|discriminate].
+      destruct (decompress_seq dstep st1 calls) as [[st2 os]|e] eqn:Hq; simpl in H; [|discriminate].
+      injection H as <- <-.
+      pose proof (decompress_safe _ _ _ _ _ _ _ _ Hs Hd) as Hs1.
+      pose proof (decompress_input_size _ _ _ _ _ _ _ _ Hs Hd) as Hi1.
+      destruct (IH st1 st2 (acc ++ o) os Hs1 Hq) as (Hs2 & Hi2).
+      rewrite app_assoc. split; [exact Hs2|lia].
+  Qed.
+
+  (* ==== D (first half). the caller loop ================================= *)
+  Lemma worker_unfold (fuel : nat) (st : dst) (size mb : Z) (sched : list nat) :
+    worker_decompress dstep fuel st size mb sched =
+    if size >? 0 then
+      match fuel with
+      | O => Err EFuel
+      | S fuel' =>
+        do r <- decompress dstep st (Z.min size mb) (sched_hd st sched);
+        let '(st', tmp) := r in
+        let rem := if zlen tmp >? 0 then size - zlen tmp else size in
+        if rem <=? 0 then Ok (st', tmp)
+        else
+          do r' <- worker_decompress dstep fuel' st' rem mb (tl sched);
+          let '(st'', out) := r' in
+          Ok (st'', tmp ++ out)
+      end
+    else Ok (st, []).
+  Proof. destruct fuel; reflexivity. Qed.
+
+  (* generic: any invariant of decompress that implies the buffer invariant is
+     an invariant of the loop, and the loop writes exactly [size] bytes *)
+  Lemma worker_generic (I : dst -> bytes -> Prop) :
+    (forall st acc, I st acc -> 0 <= pos st <= zlen (buf st) /\ unused st = []) ->
+    (forall st acc ml rd st' out,
+        I st acc -> decompress dstep st ml rd = Ok (st', out) -> I st' (acc ++ out)) ->
+    forall fuel st size mb sched acc st' out,
+      I st acc -> 0 <= size -> 0 < mb ->
+      worker_decompress dstep fuel st size mb sched = Ok (st', out) ->
+      I st' (acc ++ out) /\ zlen out = size.
+  Proof.
+    intros Ibuf Istep.
+    induction fuel as [|fuel IH]; intros st size mb sched acc st' out HI Hsz Hmb H;
+      rewrite worker_unfold in H.
+    - destruct (size >? 0) eqn:E; [discriminate|].
+      injection H as <- <-. rewrite app_nil_r, zlen_nil.
+      split; [exact HI|]. destruct (Z.gtb_spec size 0); [discriminate|lia].
+    - destruct (size >? 0) eqn:E.
+      + apply Z.gtb_lt in E.
+        destruct (decompress dstep st (Z.min size mb) (sched_hd st sched))
+          as [[st1 tmp]|e] eqn:Hd; simpl in H; [|discriminate].
+        pose proof (Istep _ _ _ _ _ _ HI Hd) as HI1.
+        destruct (Ibuf _ _ HI) as (Hpos & Hun).
+        assert (Hlen : zlen tmp <= Z.min size mb)
+          by (eapply decompress_len; [exact Hpos|exact Hun|lia|exact Hd]).
+        pose proof (zlen_nonneg tmp) as Hnn.
+        destruct (zlen tmp >? 0) eqn:Et.
+        * apply Z.gtb_lt in Et.
+          destruct (size - zlen tmp <=? 0) eqn:Er.
+          -- apply Z.leb_le in Er. injection H as <- <-.
+             split; [exact HI1|lia].
+          -- apply Z.leb_gt in Er.
+             destruct (worker_decompress dstep fuel st1 (size - zlen tmp) mb (tl sched))
+               as [[st2 o2]|e] eqn:Hw; simpl in H; [|discriminate].
+             injection H as <- <-.
+             assert (Hrem : 0 <= size - zlen tmp) by lia.
+             destruct (IH _ _ _ _ _ _ _ HI1 Hrem Hmb Hw) as (HI2 & Hl2).
+             rewrite app_assoc, zlen_app. split; [exact HI2|lia].
+        * assert (zlen tmp = 0) by (destruct (Z.gtb_spec (zlen tmp) 0); [discriminate|lia]).
+          destruct (size <=? 0) eqn:Er; [apply Z.leb_le in Er; lia|].
+          destruct (worker_decompress dstep fuel st1 size mb (tl sched))
+            as [[st2 o2]|e] eqn:Hw; simpl in H; [|discriminate].
+          injection H as <- <-.
+          destruct (IH _ _ _ _ _ _ _ HI1 Hsz Hmb Hw) as (HI2 & Hl2).
+          rewrite app_assoc, zlen_app. split; [exact HI2|lia].
+      + injection H as <- <-. rewrite app_nil_r, zlen_nil.
+        split; [exact HI|]. destruct (Z.gtb_spec size 0); [discriminate|lia].
+  Qed.
+
+  Theorem worker_len (L0 : Z) (fuel : nat) (st st' : dst) (size mb : Z)
+          (sched : list nat) (out : bytes) :
+    book_inv L0 st -> 0 <= size -> 0 < mb ->
+    worker_decompress dstep fuel st size mb sched = Ok (st', out) ->
+    zlen out = size /\ book_inv L0 st'.
+  Proof.
+    intros Hinv Hsz Hmb H.
+    assert (Hbuf : forall (s : dst) (a : bytes), book_inv L0 s ->
+                     0 <= pos s <= zlen (buf s) /\ unused s = []).
+    { intros s _ (Hp & Hu & _). split; assumption. }
+    assert (Hstep : forall (s : dst) (a : bytes) ml rd s' o,
+               book_inv L0 s -> decompress dstep s ml rd = Ok (s', o) -> book_inv L0 s').
+    { intros s _ ml rd s' o Hb Hd.
+      exact (proj1 (decompress_book_inv L0 s s' ml rd o Hb Hd)). }
+    destruct (worker_generic (fun s _ => book_inv L0 s) Hbuf Hstep
+                             fuel st size mb sched [] st' out Hinv Hsz Hmb H) as (Hi & Hl).
+    split; assumption.
+  Qed.
+
+  Lemma worker_safe (s0s : list stage_st) (P0 : bytes) (fuel : nat) (st st' : dst)
+        (size mb : Z) (sched : list nat) (acc out : bytes) :
+    safe_state dstep s0s P0 st acc -> 0 <= size -> 0 < mb ->
+    worker_decompress dstep fuel st size mb sched = Ok (st', out) ->
+    safe_state dstep s0s P0 st' (acc ++ out) /\ input_size st' = input_size st /\
+    zlen out = size.
+  Proof.
+    intros Hs Hsz Hmb H.
+    set (I := fun (s : dst) (a : bytes) =>
+                safe_state dstep s0s P0 s a /\ input_size s = input_size st).
+    assert (Hbuf : forall s a, I s a -> 0 <= pos s <= zlen (buf s) /\ unused s = []).
+    { intros s a ((Hp & Hu & _) & _). split; assumption. }
+    assert (Hstep : forall s a ml rd s' o,
+               I s a -> decompress dstep s ml rd = Ok (s', o) -> I s' (a ++ o)).
+    { intros s a ml rd s' o (Hb & Hi) Hd. split.
+      - eapply decompress_safe; eassumption.
+      - rewrite <- Hi. eapply decompress_input_size; eassumption. }
+    assert (HI : I st acc) by (split; [exact Hs|reflexivity]).
+    destruct (worker_generic I Hbuf Hstep fuel st size mb sched acc st' out HI Hsz Hmb H)
+      as ((Hs' & Hi') & Hl).
+    split; [exact Hs'|split; [exact Hi'|exact Hl]].
+  Qed.
+
+  (* ==== E. the caller loop can spin forever ============================ *)
+  Section Spin.
+    Variable quiet : stage_st -> Prop.
+    Hypothesis quiet_step : forall s ml,
+        quiet s -> snd (dstep s [] ml) = [] /\ quiet (fst (dstep s [] ml)).
+
+    Lemma chain_run_quiet (ss : list stage_st) :
+      forall up us ml,
+        Forall quiet ss -> (length ss <= length up)%nat -> (length ss <= length us)%nat ->
+        exists ss' up', chain_run dstep ss up us [] ml = Ok (ss', up', []) /\
+                        Forall quiet ss' /\ length ss' = length ss /\
+                        length up' = length up.
+    Proof.
+      induction ss as [|s ss IH]; intros up us ml Hq Hlu Hls; simpl.
+      - exists [], up. repeat split; auto.
+      - destruct up as [|u up]; [simpl in Hlu; lia|].
+        destruct us as [|w us]; [simpl in Hls; lia|].
+        simpl in Hlu, Hls. inversion Hq as [|? ? Hqs Hqss]; subst.
+        destruct (IH up us ml Hqss ltac:(lia) ltac:(lia)) as (ss' & up' & Hc & Hq' & Hl1 & Hl2).
+        destruct (u <? w).
+        + destruct (quiet_step s ml Hqs) as (Ho & Hq1).
+          destruct (dstep s [] ml) as [s1 o]. simpl in Ho, Hq1. subst o.
+          rewrite Hc. simpl. exists (s1 :: ss'), ((u + zlen []) :: up').
+          repeat split; auto; simpl; lia.
+        + change (zlen [] =? 0) with true. cbv iota.
+          rewrite Hc. simpl. exists (s :: ss'), (u :: up').
+          repeat split; auto; simpl; lia.
+    Qed.
+
+    Lemma stuck_step (st : dst) (ml : Z) (rd : nat) :
+      stuck quiet st -> 0 < ml ->
+      exists st', decompress dstep st ml rd = Ok (st', []) /\ stuck quiet st'.
+    Proof.
+      intros (Hq & Hlu & Hls & Hun & Hpos & Hno) Hml.
+      unfold decompress.
+      destruct (ml <? 0) eqn:E1; [apply Z.ltb_lt in E1; lia|].
+      destruct (zlen (buf st) - pos st >=? ml) eqn:E2;
+        [destruct (Z.geb_spec (zlen (buf st) - pos st) ml); [lia|discriminate]|].
+      destruct (read_data st rd) as [st1 data] eqn:Hrd.
+      apply read_data_spec in Hrd.
+      destruct Hrd as (R1 & R2 & R3 & R4 & R5 & R6 & R7 & R8 & R9 & R10 & R11).
+      rewrite Hun, zlen_nil in R11.
+      assert (data = []) as ->.
+      { destruct Hno as [Hf|[Hi|Hb]].
+        - rewrite Hf in R9. symmetry in R9. apply app_eq_nil in R9. apply R9.
+        - apply zlen_le0_nil. lia.
+        - apply zlen_le0_nil. lia. }
+      rewrite app_nil_l in R9. rewrite zlen_nil, Z.add_0_r in R10.
+      rewrite R6, Hun. change (zlen [] >? 0) with false. cbv iota.
+      unfold run_chain. rewrite R1, R2, R3.
+      destruct (chain_run_quiet (stages st) (unpacked st) (unpacksizes st) ml Hq Hlu Hls)
+        as (ss' & up' & Hc & Hq' & Hl1 & Hl2).
+      rewrite Hc. simpl. rewrite zlen_nil, Z.add_0_r.
+      destruct (zlen (buf st) - pos st <=? ml) eqn:E3;
+        [|apply Z.leb_gt in E3; lia].
+      rewrite R7, R8, Hpos, py_from_all. simpl.
+      eexists. split; [reflexivity|].
+      unfold stuck; simpl. rewrite R6, R4, R10, R5, <- R9.
+      repeat split; auto; lia.
+    Qed.
+
+    Theorem worker_spins (fuel : nat) :
+      forall (st : dst) (size mb : Z) (sched : list nat),
+        stuck quiet st -> 0 < size -> 0 < mb ->
+        worker_decompress dstep fuel st size mb sched = Err EFuel.
+    Proof.
+      induction fuel as [|fuel IH]; intros st size mb sched Hst Hsz Hmb;
+        rewrite worker_unfold;
+        (destruct (size >? 0) eqn:E; [|destruct (Z.gtb_spec size 0); [discriminate|lia]]).
+      - reflexivity.
+      - destruct (stuck_step st (Z.min size mb) (sched_hd st sched) Hst ltac:(lia))
+          as (st1 & Hd & Hst1).
+        rewrite Hd. simpl. change (zlen [] >? 0) with false. cbv iota.
+        destruct (size <=? 0) eqn:E2; [apply Z.leb_le in E2; lia|].
+        rewrite (IH st1 size mb (tl sched) Hst1 Hsz Hmb). reflexivity.
+    Qed.
+  End Spin.
+
+  (* ==== C/D (second half): the stage contract ========================== *)
+  Section Contract.
+    (* D s0 = total stream decoder of a stage started in state s0 *)
+    Variable D : stage_st -> bytes -> bytes.
+    Hypothesis D_mono : forall s0 a b, prefix (D s0 a) (D s0 (a ++ b)).
+    Hypothesis stage_safe : forall s0 s cin cout,
+        reach dstep s0 s cin cout -> prefix cout (D s0 cin).
+
+    Lemma Dchain_mono (s0s : list stage_st) :
+      forall a b, prefix a b -> prefix (Dchain D s0s a) (Dchain D s0s b).
+    Proof.
+      induction s0s as [|s t IH]; intros a b Hp; simpl; [exact Hp|].
+      apply IH. destruct Hp as [c ->]. apply D_mono.
+    Qed.
+
+    Lemma creach_prefix (s0s ss : list stage_st) (x z : bytes) :
+      creach dstep s0s ss x z -> prefix z (Dchain D s0s x).
+    Proof.
+      induction 1 as [x|s0 s x y s0s ss z Hr Hc IH]; simpl; [apply prefix_refl|].
+      eapply prefix_trans; [exact IH|]. apply Dchain_mono. eapply stage_safe; exact Hr.
+    Qed.
+
+    Lemma safe_state_prefix (s0s : list stage_st) (P0 : bytes) (st : dst) (acc : bytes) :
+      safe_state dstep s0s P0 st acc ->
+      prefix (acc ++ py_from (buf st) (pos st))
+             (Dchain D s0s (firstn (Z.to_nat (input_size st)) P0)).
+    Proof.
+      intros (_ & _ & x & z & Hcr & HP & _ & Hxl & Hz).
+      rewrite <- Hz. eapply prefix_trans; [eapply creach_prefix; exact Hcr|].
+      apply Dchain_mono. rewrite HP, firstn_app.
+      rewrite firstn_all2 by (unfold zlen in Hxl; lia). apply prefix_app.
+    Qed.
+
+    (* PREFIX SAFETY, any chain length *)
+    Theorem prefix_safety (st st' : dst) (calls : list (Z * nat)) (outs : bytes) :
+      fresh st ->
+      decompress_seq dstep st calls = Ok (st', outs) ->
+      prefix (outs ++ py_from (buf st') (pos st'))
+             (Dchain D (stages st) (packed_of st)).
+    Proof.
+      intros Hf H.
+      destruct (decompress_seq_safe _ _ _ _ _ _ _ (fresh_safe st Hf) H) as (Hs & Hi).
+      apply safe_state_prefix in Hs. rewrite Hi in Hs. exact Hs.
+    Qed.
+
+    (* chain of length 1 *)
+    Corollary prefix_safety_single (st st' : dst) (s0 : stage_st)
+              (calls : list (Z * nat)) (outs : bytes) :
+      fresh st -> stages st = [s0] ->
+      decompress_seq dstep st calls = Ok (st', outs) ->
+      prefix (outs ++ py_from (buf st') (pos st')) (D s0 (packed_of st)).
+    Proof.
+      intros Hf Hs H. pose proof (prefix_safety st st' calls outs Hf H) as Hp.
+      rewrite Hs in Hp. exact Hp.
+    Qed.
+
+    (* D. the loop delivers exactly the next [size] bytes of the safe stream *)
+    Theorem worker_next (s0s : list stage_st) (P0 : bytes) (fuel : nat) (st st' : dst)
+            (size mb : Z) (sched : list nat) (acc out : bytes) :
+      safe_state dstep s0s P0 st acc -> 0 <= size -> 0 < mb ->
+      worker_decompress dstep fuel st size mb sched = Ok (st', out) ->
+      safe_state dstep s0s P0 st' (acc ++ out) /\
+      zlen out = size /\
+      out = firstn (Z.to_nat size)
+                   (skipn (length acc)
+                          (Dchain D s0s (firstn (Z.to_nat (input_size st)) P0))).
+    Proof.
+      intros Hs Hsz Hmb H.
+      destruct (worker_safe s0s P0 fuel st st' size mb sched acc out Hs Hsz Hmb H)
+        as (Hs' & Hi & Hl).
+      split; [exact Hs'|]. split; [exact Hl|].
+      pose proof (safe_state_prefix _ _ _ _ Hs') as Hp. rewrite Hi in Hp.
+      destruct Hp as [c Hc]. rewrite Hc, <- !app_assoc.
+      rewrite skipn_app, skipn_all, Nat.sub_diag. simpl.
+      rewrite firstn_app.
+      replace (Z.to_nat size) with (length out) by (unfold zlen in Hl; lia).
+      rewrite firstn_all, Nat.sub_diag. simpl. now rewrite app_nil_r.
+    Qed.
+
+    Corollary worker_first (fuel : nat) (st st' : dst) (size mb : Z)
+              (sched : list nat) (out : bytes) :
+      fresh st -> 0 <= size -> 0 < mb ->
+      worker_decompress dstep fuel st size mb sched = Ok (st', out) ->
+      zlen out = size /\
+      out = firstn (Z.to_nat size) (Dchain D (stages st) (packed_of st)).
+    Proof.
+      intros Hf Hsz Hmb H.
+      destruct (worker_next _ _ _ _ _ _ _ _ _ _ (fresh_safe st Hf) Hsz Hmb H)
+        as (_ & Hl & Ho).
+      split; [exact Hl|exact Ho].
+    Qed.
+  End Contract.
+
+End ChainProofs.
+
+(* ---- non-vacuity: the toy stages satisfy the contract ----------------- *)
+Lemma dup_app (a b : bytes) : dup (a ++ b) = dup a ++ dup b.
+Proof. induction a as [|x a IH]; simpl; [reflexivity|]. now rewrite IH. Qed.
+
+Lemma toy_D_mono (s0 : toy_state) (a b : bytes) : prefix (toy_D s0 a) (toy_D s0 (a ++ b)).
+Proof.
+  destruct s0 as [[tag k] p]. unfold toy_D.
+  destruct (tag =? 1); [rewrite app_assoc; apply prefix_app|].
+  destruct (tag =? 2); [rewrite dup_app|]; apply prefix_app.
+Qed.
+
+Lemma toy_reach_inv (s0 s : toy_state) (cin cout : bytes) :
+  reach toy_dstep s0 s cin cout ->
+  fst (fst s) = fst (fst s0) /\ snd (fst s) = snd (fst s0) /\
+  (if fst (fst s0) =? 1 then snd s0 ++ cin = cout ++ snd s
+   else if fst (fst s0) =? 2 then cout = dup cin else cout = cin).
+Proof.
+  induction 1 as [|s cin cout c ml Hr (IHt & IHk & IH)].
+  - split; [reflexivity|]. split; [reflexivity|].
+    destruct (fst (fst s0) =? 1); [now rewrite app_nil_r|].
+    destruct (fst (fst s0) =? 2); reflexivity.
+  - destruct s as [[t k] p]. simpl in IHt, IHk, IH. subst t k.
+    unfold toy_dstep.
+    destruct (fst (fst s0) =? 1).
+    + cbv zeta. simpl fst. simpl snd.
+      split; [reflexivity|]. split; [reflexivity|].
+      rewrite <- app_assoc, firstn_skipn, !app_assoc, IH. reflexivity.
+    + destruct (fst (fst s0) =? 2); simpl;
+        (split; [reflexivity|]); (split; [reflexivity|]); subst cout.
+      * symmetry; apply dup_app.
+      * reflexivity.
+Qed.
+
+Lemma toy_stage_safe (s0 s : toy_state) (cin cout : bytes) :
+  reach toy_dstep s0 s cin cout -> prefix cout (toy_D s0 cin).
+Proof.
+  intros H. apply toy_reach_inv in H. destruct H as (_ & _ & H).
+  destruct s0 as [[tag k] p0]. unfold toy_D. simpl in H.
+  destruct (tag =? 1); [rewrite H; apply prefix_app|].
+  destruct (tag =? 2); subst cout; apply prefix_refl.
+Qed.
+
+(* the main theorems instantiated: the Section hypotheses are satisfiable *)
+Theorem toy_prefix_safety (st st' : dstate toy_state) (calls : list (Z * nat)) (outs : bytes) :
+  fresh st ->
+  decompress_seq toy_dstep st calls = Ok (st', outs) ->
+  prefix (outs ++ py_from (buf st') (pos st')) (Dchain toy_D (stages st) (packed_of st)).
+Proof. exact (prefix_safety toy_state toy_dstep toy_D toy_D_mono toy_stage_safe st st' calls outs). Qed.
+
+Theorem toy_worker_first (fuel : nat) (st st' : dstate toy_state) (size mb : Z)
+        (sched : list nat) (out : bytes) :
+  fresh st -> 0 <= size -> 0 < mb ->
+  worker_decompress toy_dstep fuel st size mb sched = Ok (st', out) ->
+  zlen out = size /\
+  out = firstn (Z.to_nat size) (Dchain toy_D (stages st) (packed_of st)).
+Proof.
+  exact (worker_first toy_state toy_dstep toy_D toy_D_mono toy_stage_safe
+                      fuel st st' size mb sched out).
+Qed.
+
+(* ---- E witness: declared unpack size 10, stream holds 3 bytes ---------- *)
+Theorem toy_worker_spins (fuel : nat) :
+  toy_worker fuel [toy_st 0 0 []] [10] 3 100 [1; 2; 3] 10 100 [] = Err EFuel.
+Proof.
+  unfold toy_worker, toy_init.
+  destruct fuel as [|fuel]; [reflexivity|].
+  rewrite worker_unfold.
+  change (10 >? 0) with true. cbv iota.
+  set (st0 := init_state [toy_st 0 0 []] [10] 3 100 [1; 2; 3]).
+  set (st1 := mkD [toy_st 0 0 []] [3] [10] 3 3 100 [] [] 0 []).
+  assert (Hd : decompress toy_dstep st0 (Z.min 10 100) (sched_hd st0 []) = Ok (st1, [1; 2; 3]))
+    by (vm_compute; reflexivity).
+  rewrite Hd. simpl bind. cbv iota beta.
+  change (zlen [1; 2; 3] >? 0) with true. cbv iota zeta.
+  change (10 - zlen [1; 2; 3] <=? 0) with false. cbv iota.
+  rewrite (worker_spins toy_state toy_dstep (fun s => fst (fst s) = 0)).
+  - reflexivity.
+  - intros [[t k] p] ml Ht. simpl in Ht. subst t. simpl. split; reflexivity.
+  - unfold stuck, st1; simpl. repeat split; auto.
+  - reflexivity.
+  - reflexivity.
+Qed.
+
+(* ---- B needs the buffer invariant: without it the bound fails --------- *)
+Theorem decompress_len_no_inv_refuted :
+  exists (st st' : dstate toy_state) (ml : Z) (rd : nat) (out : bytes),
+    unused st = [] /\ 0 <= ml /\
+    decompress toy_dstep st ml rd = Ok (st', out) /\ ~ zlen out <= ml.
+Proof.
+  exists (mkD [toy_st 0 0 []] [0] [10] 0 4 4 [] [] 5 [1; 2; 3; 4]).
+  eexists. exists 1, 4%nat. eexists.
+  split; [reflexivity|]. split; [lia|]. split; [vm_compute; reflexivity|].
+  vm_compute. intros H; apply H; reflexivity.
+Qed.
+
+(* ---- regression vectors (also useful for the Python mirror) ----------- *)
+Example toy_run_lag :
+  toy_run [toy_st 1 2 []] [100] 6 4 [1; 2; 3; 4; 5; 6; 7]
+          [(3, 10%nat); (3, 2%nat); (-1, 10%nat); (5, 10%nat); (5, 10%nat)]
+  = [Ok [1; 2]; Ok [3; 4]; Ok [5; 6]; Ok []; Ok []].
+Proof. vm_compute. reflexivity. Qed.
+
+Example toy_run_expand_lag :
+  toy_run [toy_st 2 0 []; toy_st 1 1 []] [100; 100] 6 4 [1; 2; 3; 4; 5; 6; 7]
+          [(3, 10%nat); (3, 2%nat); (-1, 10%nat); (5, 10%nat); (5, 10%nat)]
+  = [Ok [1; 1; 2]; Ok [2; 3; 3]; Ok [4; 4; 5; 5; 6; 6]; Ok []; Ok []].
+Proof. vm_compute. reflexivity. Qed.
+
+Example toy_run_gate_eof :
+  toy_run [toy_st 0 0 []] [2] 6 4 [1; 2; 3; 4; 5; 6; 7] [(3, 10%nat); (3, 2%nat)]
+  = [Ok [1; 2; 3]; Err EEof].
+Proof. vm_compute. reflexivity. Qed.
+
+Example toy_worker_ok :
+  toy_worker 10 [toy_st 2 0 []; toy_st 1 1 []] [100; 100] 6 4 [1; 2; 3; 4; 5; 6; 7] 7 3 [1%nat]
+  = Ok [1; 1; 2; 2; 3; 3; 4].
+Proof. vm_compute. reflexivity. Qed.
+
+Print Assumptions decompress_book_inv.
+Print Assumptions decompress_seq_book_inv.
+Print Assumptions decompress_len.
+Print Assumptions prefix_safety.
+Print Assumptions prefix_safety_single.
+Print Assumptions worker_len.
+Print Assumptions worker_next.
+Print Assumptions worker_first.
+Print Assumptions worker_spins.
+Print Assumptions toy_prefix_safety.
+Print Assumptions toy_worker_first.
+Print Assumptions toy_worker_spins.
+Print Assumptions decompress_len_no_inv_refuted.
